@@ -62,7 +62,8 @@ pub fn run(ctx: &Ctx) -> Value {
     for n in [MIN_DAY, 0, 719_163, 736_694, MAX_DAY] { for s in [0u32, 59, 86_399] { for f in [0u32, 1, 4, 5, 499_999_999, 500_000_000, 949_999_999, 950_000_000, 999_999_999, 1_000_000_000, 1_499_999_999, 1_500_000_000, 1_999_999_995, 1_999_999_999] {
         dts.push(mk_ndt(n, s, f)); } } }
     for _ in 0..ctx.t(200, 20_000) { dts.push(mk_ndt(rng.range(MIN_DAY, MAX_DAY), rng.range(0, 86_399) as u32, rng.range(0, 1_999_999_999) as u32)); }
-    for &x in &dts { for digits in [0u16, 1, 2, 3, 5, 6, 8, 9, 10, u16::MAX] {
+    // width aliases of the digit count (d + 256k): from 9 digits on the value must come back unchanged
+    for (i, &x) in dts.iter().enumerate() { for digits in [0u16, 1, 2, 3, 5, 6, 8, 9, 10, 255, 256, 257, 264, 512, 520, 4096 + (i as u16 % 9), 0xFF00 + (i as u16 % 9), u16::MAX] {
         tw.emit(ev("subsec.trunc", json!({"dt": ndt(x), "digits": digits.min(20)}), || json!({"r": ndt(x.trunc_subsecs(digits))})));
         tw.emit(ev("subsec.round", json!({"dt": ndt(x), "digits": digits.min(20)}), || json!({"r": ndt(x.round_subsecs(digits))})));
         n_sub += 2;
